@@ -175,8 +175,9 @@ fn spawn(prop: &str, tier: Tier, scratch: &Path, j: &Job, only: Option<u64>, tag
 }
 
 fn read_json(p: &Path) -> Option<Value> {
-    let s = std::fs::read_to_string(p).ok()?;
-    serde_json::from_str(&s).ok()
+    // a library change can hand back a `String` that is not UTF-8; the report then carries those bytes
+    let b = std::fs::read(p).ok()?;
+    serde_json::from_str(&String::from_utf8_lossy(&b)).ok()
 }
 
 fn parse_crash(pre: &Path) -> Option<(String, u64, u64)> {
